@@ -257,6 +257,10 @@ fn get(bytes: &[u8], off: usize, width: usize) -> u64 {
 
 /// boundary values for a count field of `width` bytes whose honest value is `t`
 pub fn count_values(width: usize, t: u64) -> Vec<u64> {
+    if width == 1 {
+        // one-byte fields are cheap to enumerate completely
+        return (0..=255u64).filter(|v| *v != t).collect();
+    }
     let max = if width >= 8 { u64::MAX } else { (1u64 << (8 * width)) - 1 };
     let mut v = vec![0, 1, max - 1, max, t.wrapping_add(1) & max, t.wrapping_sub(1) & max, 2, max / 2, max / 2 + 1];
     v.sort_unstable();
@@ -329,6 +333,13 @@ pub fn set_count(bytes: &[u8], f: &Field, v: u64) -> Vec<u8> {
 /// one sampled blind / structural fault; returns (description, mutated bytes)
 pub fn sampled_fault(ch: &mut Chooser, bytes: &[u8], lay: &Layout, other: Option<&[u8]>) -> (String, Vec<u8>) {
     let n = bytes.len();
+    if !lay.fields.is_empty() && ch.chance("hostile.coordinated?", 1, 4) {
+        let kind = ch.index("hostile.ckind", COORDINATED_KINDS);
+        let variant = ch.index("hostile.cvariant", 16);
+        if let Some(r) = coordinated_fault(bytes, lay, kind, variant) {
+            return r;
+        }
+    }
     match ch.weighted("hostile.kind", &[3, 2, 3, 3, 3, 2, 2, 1, 2, 3]) {
         0 => {
             if n == 0 {
@@ -461,6 +472,210 @@ pub fn sampled_fault(ch: &mut Chooser, bytes: &[u8], lay: &Layout, other: Option
                 }
                 (format!("blob after {} shortened by {k} bytes (prefix fixed: {fix})", f.name), out)
             }
+        },
+    }
+}
+
+// COORDINATED EDITS
+// ------------------------------------------------------------------------------------------------
+// Structural edits that keep the proof self-consistent (every dependent count and length prefix
+// is adjusted), so that they get past the parsers and reach the code that *uses* the counts.
+
+fn find<'a>(lay: &'a Layout, name: &str) -> Option<&'a Field> {
+    lay.fields.iter().find(|f| f.name == name)
+}
+
+fn fields_with_prefix<'a>(lay: &'a Layout, prefix: &str) -> Vec<&'a Field> {
+    lay.fields.iter().filter(|f| f.name.starts_with(prefix)).collect()
+}
+
+/// replace the blob that follows the length field `lenf` by `content`, fixing the prefix and
+/// every enclosing prefix
+fn replace_blob(bytes: &[u8], lenf: &Field, content: &[u8]) -> Vec<u8> {
+    let cur = get(bytes, lenf.off, lenf.len) as usize;
+    let start = lenf.off + lenf.len;
+    let mut out = bytes.to_vec();
+    for (o, w) in &lenf.enclosing {
+        let v = (get(&out, *o, *w) as i128 + content.len() as i128 - cur as i128) as u64;
+        put(&mut out, *o, *w, v);
+    }
+    put(&mut out, lenf.off, lenf.len, content.len() as u64);
+    out.splice(start..(start + cur).min(bytes.len()), content.iter().copied());
+    out
+}
+
+/// number of coordinated edit kinds
+pub const COORDINATED_KINDS: usize = 8;
+
+/// The `variant`-th flavour of coordinated edit `kind`; None when it does not apply to this proof.
+pub fn coordinated_fault(bytes: &[u8], lay: &Layout, kind: usize, variant: usize) -> Option<(String, Vec<u8>)> {
+    match kind {
+        0 => {
+            // OOD frame size f' with exactly width * f' trace states
+            let lenf = find(lay, "ood.trace_states_len")?;
+            let states = fields_with_prefix(lay, "ood.trace_state[");
+            let esz = states.first()?.len;
+            let w = states.len() / 2;
+            let f = [0usize, 1, 3, 4, 255][variant % 5];
+            let mut content = vec![f as u8];
+            let src_start = states.first()?.off;
+            let avail = states.len() * esz;
+            for i in 0..w * f * esz {
+                content.push(bytes[src_start + i % avail.max(1)]);
+            }
+            if content.len() > 65000 {
+                return None;
+            }
+            Some((format!("coordinated: OOD frame size set to {f} with {} trace states to match", w * f), replace_blob(bytes, lenf, &content)))
+        },
+        1 => {
+            // a Lagrange kernel frame of c elements (consistent count) in any proof
+            let lenf = find(lay, "ood.lagrange_len")?;
+            let states = fields_with_prefix(lay, "ood.trace_state[");
+            let esz = states.first()?.len;
+            let c = [1usize, 2, 4, 11, 255][variant % 5];
+            let mut content = vec![c as u8];
+            let src_start = states.first()?.off;
+            let avail = states.len() * esz;
+            for i in 0..c * esz {
+                content.push(bytes[src_start + i % avail.max(1)]);
+            }
+            Some((format!("coordinated: Lagrange kernel frame of {c} elements supplied"), replace_blob(bytes, lenf, &content)))
+        },
+        2 => {
+            // one more / one fewer opened row in EVERY query set, num_unique_queries adjusted
+            let nq = find(lay, "num_unique_queries")?;
+            let q = get(bytes, nq.off, 1) as usize;
+            let grow = variant % 2 == 0;
+            if !grow && q < 2 {
+                return None;
+            }
+            let mut out = bytes.to_vec();
+            // process from the back so that earlier offsets stay valid
+            let mut lens: Vec<&Field> = lay.fields.iter().filter(|f| f.name.ends_with(".values_len") && !f.name.starts_with("fri.")).collect();
+            lens.sort_by_key(|f| std::cmp::Reverse(f.off));
+            for lf in lens {
+                let cur = get(bytes, lf.off, 4) as usize;
+                if q == 0 || cur % q != 0 {
+                    return None;
+                }
+                let row = cur / q;
+                let start = lf.off + 4;
+                let mut content = bytes[start..start + cur].to_vec();
+                if grow {
+                    let last = content[cur - row..].to_vec();
+                    content.extend_from_slice(&last);
+                } else {
+                    content.truncate(cur - row);
+                }
+                out = replace_blob(&out, lf, &content);
+            }
+            put(&mut out, nq.off, 1, if grow { q as u64 + 1 } else { q as u64 - 1 });
+            Some((format!("coordinated: one opened row {} in every query set, num_unique_queries {} -> {}", if grow { "appended" } else { "removed" }, q, if grow { q + 1 } else { q - 1 }), out))
+        },
+        3 => {
+            // one more / one fewer query in one FRI layer
+            let lens: Vec<&Field> = lay.fields.iter().filter(|f| f.name.starts_with("fri.layer[") && f.name.ends_with(".values_len")).collect();
+            if lens.is_empty() {
+                return None;
+            }
+            let lf = lens[(variant / 2) % lens.len()];
+            let name = lf.name.trim_end_matches(".values_len").to_string();
+            let nvals = fields_with_prefix(lay, &format!("{name}.value[")).len();
+            let npos = lay.fields.iter().find(|f| f.name == format!("{name}.paths.num_vectors")).map(|f| get(bytes, f.off, 1) as usize).unwrap_or(1).max(1);
+            let _ = npos;
+            let cur = get(bytes, lf.off, 4) as usize;
+            let esz = cur / nvals.max(1);
+            // a query is `folding` elements; we do not know folding here: try 2, 4, 8, 16 by variant
+            let n = [2usize, 4, 8, 16][(variant / 4) % 4] * esz;
+            let start = lf.off + 4;
+            let mut content = bytes[start..start + cur].to_vec();
+            if variant % 2 == 0 {
+                let tail = content[cur.saturating_sub(n)..].to_vec();
+                content.extend_from_slice(&tail);
+            } else {
+                if cur <= n {
+                    return None;
+                }
+                content.truncate(cur - n);
+            }
+            Some((format!("coordinated: {name} values {} by {n} bytes", if variant % 2 == 0 { "extended" } else { "shortened" }), replace_blob(bytes, lf, &content)))
+        },
+        4 => {
+            // field modulus of another length, consistent length byte
+            let lenf = find(lay, "ctx.modulus_len")?;
+            let cur = get(bytes, lenf.off, 1) as usize;
+            let l = [1usize, 2, 4, 7, 9, 15, 16, 17, 32, 255][variant % 10];
+            if l == cur {
+                return None;
+            }
+            let start = lenf.off + 1;
+            let mut content: Vec<u8> = bytes[start..start + cur].to_vec();
+            content.resize(l, if variant % 3 == 0 { 0xff } else { 0 });
+            Some((format!("coordinated: field modulus of {l} bytes (was {cur})"), replace_blob(bytes, lenf, &content)))
+        },
+        5 => {
+            // one more / one fewer commitment
+            let lenf = find(lay, "commitments.len")?;
+            let ds = fields_with_prefix(lay, "commitments.digest[");
+            let dsz = ds.first()?.len;
+            let cur = get(bytes, lenf.off, 2) as usize;
+            let start = lenf.off + 2;
+            let mut content = bytes[start..start + cur].to_vec();
+            if variant % 2 == 0 {
+                let last = content[cur - dsz..].to_vec();
+                content.extend_from_slice(&last);
+            } else {
+                content.truncate(cur - dsz);
+            }
+            Some((format!("coordinated: one commitment {}", if variant % 2 == 0 { "appended" } else { "removed" }), replace_blob(bytes, lenf, &content)))
+        },
+        6 => {
+            // a GKR proof of L bytes (consistent), or a huge announced length without bytes
+            let flag = find(lay, "gkr.present")?;
+            let mut out = bytes[..flag.off].to_vec();
+            out.push(1);
+            let l: u64 = [0u64, 1, 8, 127, 128, 129, 300, 1 << 40, u64::MAX, u64::MAX - 7][variant % 10];
+            // vint64 encoding
+            let zeros = l.leading_zeros() as usize;
+            let len = 9 - ((zeros.saturating_sub(1)) / 7).min(8);
+            if len == 9 {
+                out.push(0);
+                out.extend_from_slice(&l.to_le_bytes());
+            } else {
+                let enc = ((l << 1 | 1) << (len - 1)).to_le_bytes();
+                out.extend_from_slice(&enc[..len]);
+            }
+            if l <= 300 {
+                out.extend(std::iter::repeat(3u8).take(l as usize));
+            }
+            Some((format!("coordinated: GKR proof announced with {l} bytes"), out))
+        },
+        _ => {
+            // remainder of another power-of-two length
+            let lenf = find(lay, "fri.remainder_len")?;
+            let rs = fields_with_prefix(lay, "fri.remainder[");
+            let esz = rs.first()?.len;
+            let cur = get(bytes, lenf.off, 2) as usize;
+            let start = lenf.off + 2;
+            let mut content = bytes[start..start + cur].to_vec();
+            match variant % 3 {
+                0 => {
+                    let c = content.clone();
+                    content.extend_from_slice(&c);
+                },
+                1 => {
+                    if cur < 2 * esz {
+                        return None;
+                    }
+                    content.truncate(cur / 2);
+                },
+                _ => content.clear(),
+            }
+            if content.len() > 65000 {
+                return None;
+            }
+            Some((format!("coordinated: FRI remainder of {} elements (was {})", content.len() / esz, cur / esz), replace_blob(bytes, lenf, &content)))
         },
     }
 }
